@@ -3,7 +3,7 @@
    key; the sweep's condition; the sweeper election) and from these constants. *)
 From Coq Require Import String.
 From Gen Require Import Skeletons.
-From GW Require Import Verified.
+From GW Require Import Verified VerifiedBodies.
 
 Lemma cache_Retrieve_skeleton : gen_cache_Retrieve = verified_cache_Retrieve.
 Proof. reflexivity. Qed.
@@ -12,4 +12,8 @@ Lemma cache_not_found_message : gen_const_MessageMissingCachedQuery = verified_c
 Proof. reflexivity. Qed.
 
 Lemma cache_default_ttl : gen_const_defaultTTL = verified_const_defaultTTL.
+Proof. reflexivity. Qed.
+
+(* bodies with their conditions (VerifiedBodies.v) *)
+Lemma gateway_GetPlans_body : gen_gateway_GetPlans = verified_gateway_GetPlans.
 Proof. reflexivity. Qed.
